@@ -341,15 +341,17 @@ def eval_sdiv(dividend: ValueRange, divisor: ValueRange) -> ValueRange:
     if dividend.is_empty or divisor.is_empty:
         return ValueRange.empty()
     d = divisor.as_constant()
-    # d is already signed from as_constant()
     if d is None:
         return ValueRange.top()
+    # constants may be in unsigned form (e.g. the result of eval_add),
+    # sdiv interprets its operands as signed
+    d = wrap256(d, signed=True)
     if d == 0:
         return ValueRange.constant(0)
 
     # For constant dividend, compute exact result
     if dividend.is_constant:
-        dv = dividend.lo
+        dv = wrap256(dividend.lo, signed=True)
         # Special case: SIGNED_MIN / -1 = SIGNED_MIN (no negation due to overflow)
         if dv == SIGNED_MIN and d == -1:
             return ValueRange.constant(SIGNED_MIN)
